@@ -394,7 +394,8 @@ pub fn configs(thorough: bool) -> Vec<Config> {
         cfgs.push(Cfg { drops, outs: vec![Ok, Err], polls: 1, pre: true, infallible: false });
         cfgs.push(Cfg { drops, outs: vec![Ok, Ok], polls: 1, pre: false, infallible: true });
     }
-    let polls3: &[usize] = if thorough { &[0, 1, 2] } else { &[0, 1] };
+    let _ = thorough; // same configs in both tiers; the tiers differ in the preemption bound
+    let polls3: &[usize] = &[0, 1, 2];
     for &polls in polls3 {
         for outs in &outs3 {
             for drops in [true, false] {
